@@ -149,6 +149,10 @@ func cpFirstStage(l *Ledger, f basics.Round) (trackerdb.CatchpointFirstStageInfo
 	return info, true
 }
 
+func cpStageStr(i trackerdb.CatchpointFirstStageInfo) string {
+	return fmt.Sprintf("totals=%+v trie=%s spver=%s onlineaccts=%s onlineroundparams=%s", i.Totals, i.TrieBalancesHash, i.StateProofVerificationHash, i.OnlineAccountsHash, i.OnlineRoundParamsHash)
+}
+
 // ---- catchpoint files --------------------------------------------------------------------------
 
 type cpEntry struct {
